@@ -2,10 +2,11 @@ package main
 
 import (
 	"fmt"
-	"os"
+	"go/ast"
+	"go/types"
+	"sort"
 	"strings"
 
-	"golang.org/x/tools/go/ssa"
 	"verif/checker/core"
 )
 
@@ -14,38 +15,71 @@ func main() {
 	if err != nil {
 		panic(err)
 	}
-	g := p.VTA()
-	target := os.Args[1]
-	var roots []*ssa.Function
-	for _, n := range os.Args[2:] {
-		roots = append(roots, p.SSAFunc("json", n))
-	}
-	prev := map[*ssa.Function]*ssa.Function{}
-	var q []*ssa.Function
-	for _, r := range roots {
-		prev[r] = r
-		q = append(q, r)
-	}
-	for len(q) > 0 {
-		f := q[0]
-		q = q[1:]
-		if strings.Contains(f.String(), target) {
-			for x := f; ; x = prev[x] {
-				fmt.Println(x.String())
-				if prev[x] == x {
-					break
-				}
+	targets := map[string]bool{"encoder.Option": true, "encoder.RuntimeContext": true, "decoder.Option": true, "decoder.RuntimeContext": true}
+	type acc struct{ r, w map[string]bool }
+	inv := map[string]*acc{}
+	for _, short := range append([]string{"json", "encoder", "decoder"}, core.VMPkgs...) {
+		for _, fd := range p.Funcs(short) {
+			if fd.Body == nil {
+				continue
 			}
-			return
-		}
-		if n := g.Nodes[f]; n != nil {
-			for _, e := range n.Out {
-				if _, ok := prev[e.Callee.Func]; !ok {
-					prev[e.Callee.Func] = f
-					q = append(q, e.Callee.Func)
+			info := p.Info(fd)
+			lhs := map[ast.Expr]bool{}
+			ast.Inspect(fd.Body, func(n ast.Node) bool {
+				switch x := n.(type) {
+				case *ast.AssignStmt:
+					for _, l := range x.Lhs {
+						lhs[core.Unparen(l)] = true
+					}
+				case *ast.KeyValueExpr:
 				}
-			}
+				return true
+			})
+			ast.Inspect(fd.Body, func(n ast.Node) bool {
+				sel, ok := n.(*ast.SelectorExpr)
+				if !ok {
+					return true
+				}
+				s := info.Selections[sel]
+				if s == nil || s.Kind() != types.FieldVal {
+					return true
+				}
+				owner := strings.TrimPrefix(s.Recv().String(), "*")
+				owner = strings.TrimPrefix(owner, core.ModPath+"/internal/")
+				if !targets[owner] {
+					return true
+				}
+				k := owner + "." + sel.Sel.Name
+				if inv[k] == nil {
+					inv[k] = &acc{map[string]bool{}, map[string]bool{}}
+				}
+				if lhs[sel] {
+					inv[k].w[p.FuncName(fd)] = true
+				} else {
+					inv[k].r[p.FuncName(fd)] = true
+				}
+				return true
+			})
 		}
 	}
-	fmt.Println("unreachable")
+	var ks []string
+	for k := range inv {
+		ks = append(ks, k)
+	}
+	sort.Strings(ks)
+	for _, k := range ks {
+		var w, r []string
+		for f := range inv[k].w {
+			w = append(w, f)
+		}
+		for f := range inv[k].r {
+			r = append(r, f)
+		}
+		sort.Strings(w)
+		sort.Strings(r)
+		if len(r) > 8 {
+			r = append(r[:8], fmt.Sprintf("…%d more", len(r)-8))
+		}
+		fmt.Printf("%s\n   W: %s\n   R: %s\n", k, strings.Join(w, ", "), strings.Join(r, ", "))
+	}
 }
